@@ -18,7 +18,7 @@ use std::io::{BufRead, BufReader, Write};
 use std::process::{Child, ChildStdin, ChildStdout, Command, Stdio};
 use std::sync::Mutex;
 
-const OPS: [&str; 9] = ["eparse", "lparse", "lfold", "echars", "etruth", "ebudget", "estamp", "epunct", "lparseterm"];
+const OPS: [&str; 10] = ["eparse", "lparse", "lfold", "echars", "etruth", "ebudget", "estamp", "epunct", "lparseterm", "emid"];
 const FMTS: [&str; 3] = ["ascii", "latex", "han"];
 
 struct Driver {
